@@ -428,6 +428,117 @@ v("C08", "server-later-calls-read", "httpgrpc/server.go",
 	}
 """, "", "R3", "later-calls-eof", "later RecvMsg on single-request method reads the body again")
 
+# ------------------------------------------------------------------ C02
+v("C02", "d3-d14-no-eof-normalisation", "httpgrpc/client.go",
+  """		if rErr == io.EOF {
+			// The reply ended (or the connection was closed) before the
+			// trailer frame was seen. That is a failed call: a bare io.EOF
+			// would be reported by RecvMsg as a clean end-of-stream.
+			rErr = io.ErrUnexpectedEOF
+		}
+""", "", "R1", "eof", "pre-fix D3/D14")
+v("C02", "payload-normalisation-redundant", "httpgrpc/client.go",
+  """		if rErr != nil {
+			if rErr == io.EOF {
+				rErr = io.ErrUnexpectedEOF
+			}
+			return
+		}
+
+		select {""", """		if rErr != nil {
+			return
+		}
+
+		select {""", silent=True, why="behaviour-preserving: the publishing point normalises io.EOF anyway")
+v("C02", "d4-no-recheck", "inprocgrpc/in_process.go",
+  """				if err := ctx.Err(); err != nil {
+					return internal.TranslateContextError(err)
+				}
+				if !gotResponse {""", """				if !gotResponse {""", "R1", "recv-closed", "pre-fix D4")
+v("C02", "readmessage-no-recheck", "inprocgrpc/in_process.go",
+  """	case m, ok := <-ch:
+		if err := ctx.Err(); err != nil {
+			return frame{}, err
+		}
+		if !ok {""", """	case m, ok := <-ch:
+		if !ok {""", "R1", "recv-closed", "stream reader trusts channel closure")
+v("C02", "eof-without-code-check", "httpgrpc/client.go",
+  """	if cs.tr.Code == int32(codes.OK) {
+		return true, io.EOF
+	}
+	statProto := spb.Status{""", """	if cs.tr.Code == int32(codes.OK) || cs.tr.Message == "" {
+		return true, io.EOF
+	}
+	statProto := spb.Status{""", "R1", "returns-EOF", "non-OK trailer with empty message reported as success")
+v("C02", "reader-early-exit", "httpgrpc/client.go",
+  """		counter++
+		var sz int32""", """		counter++
+		if counter > 1<<20 {
+			return
+		}
+		var sz int32""", "R1", "exit#", "response reader gives up silently after 2^20 frames: success without trailer")
+v("C02", "finish-error-frame-conditional", "inprocgrpc/in_process.go",
+  """	s.trailers = nil
+
+	if err != nil {
+		_ = writeMessage(s.ctx, nil, s.responses, frame{err: err})
+	}""", """	hadTrailers := len(s.trailers) > 0
+	s.trailers = nil
+
+	if err != nil && (hadTrailers || s.state != streamStateHeaders) {
+		_ = writeMessage(s.ctx, nil, s.responses, frame{err: err})
+	}""", "R2", "error-frame", "error frame skipped when the handler failed before sending anything")
+v("C02", "stream-no-ok-rewrite", "httpgrpc/server.go",
+  """			st, _ := status.FromError(internal.TranslateContextError(err))
+			if st.Code() == codes.OK {
+				// preserve all error details, but rewrite the code since we don't want
+				// to send back a non-error status when we know an error occured
+				stpb := st.Proto()
+				stpb.Code = int32(codes.Internal)
+				st = status.FromProto(stpb)
+			}
+			statProto := st.Proto()
+			tr.Code = statProto.Code""", """			st, _ := status.FromError(internal.TranslateContextError(err))
+			statProto := st.Proto()
+			tr.Code = statProto.Code""", "R2", "ok-rewrite", "stream sibling lost the OK→Internal rewrite")
+v("C02", "trailer-drops-details", "httpgrpc/server.go",
+  """			tr.Message = statProto.Message
+			tr.Details = statProto.Details""", """			tr.Message = statProto.Message""", "R3", "to-HttpTrailer", "details never sent for streams")
+v("C02", "client-drops-message", "httpgrpc/client.go",
+  """		cs.tr.Code = statProto.Code
+		cs.tr.Message = statProto.Message
+		cs.tr.Details = statProto.Details""", """		cs.tr.Code = statProto.Code
+		cs.tr.Details = statProto.Details""", "R3", "to-HttpTrailer", "message lost for non-200 stream replies")
+v("C02", "synth-drops-details", "httpgrpc/client.go",
+  """		Code:    cs.tr.Code,
+		Message: cs.tr.Message,
+		Details: cs.tr.Details,
+	}""", """		Code:    cs.tr.Code,
+		Message: cs.tr.Message,
+	}""", "R3", "to-spb.Status", "details lost when the final status is synthesised")
+v("C02", "server-sendmsg-discards-write-error", "inprocgrpc/in_process.go",
+  """	return writeMessage(s.ctx, nil, s.responses, frame{data: m})
+}
+
+func (s *inProcessServerStream) RecvMsg""", """	_ = writeMessage(s.ctx, nil, s.responses, frame{data: m})
+	return nil
+}
+
+func (s *inProcessServerStream) RecvMsg""", "R4", "discard", "send reports success although the frame was abandoned")
+v("C02", "unary-details-first-only", "httpgrpc/server.go",
+  """			for _, d := range statProto.Details {
+				b, err := codec.Marshal(d)
+				if err != nil {
+					continue
+				}
+				str := base64.RawURLEncoding.EncodeToString(b)
+				w.Header().Add(grpcDetailsHeader, str)
+			}""", """			if len(statProto.Details) > 0 {
+				if b, err := codec.Marshal(statProto.Details[0]); err == nil {
+					w.Header().Add(grpcDetailsHeader, base64.RawURLEncoding.EncodeToString(b))
+				}
+			}""", "R3", "to-headers", "only the first error detail is sent")
+
 
 def main():
     if os.path.isdir(OUT):
